@@ -118,4 +118,27 @@ func init() {
 		}
 		os.Exit(0)
 	}
+	// -loops <pkg> <function key substring>: loop ordinals with their source lines
+	if len(os.Args) > 3 && os.Args[1] == "-loops" {
+		v, err := LoadVerifier("/repo", "/verif/lib", []string{os.Args[2]})
+		if err != nil {
+			fmt.Println(err)
+			os.Exit(2)
+		}
+		for k, fn := range v.funcs {
+			if !strings.Contains(k, os.Args[3]) {
+				continue
+			}
+			fmt.Println(k)
+			var lis []*loopInfo
+			for _, li := range v.loopInfo(fn) {
+				lis = append(lis, li)
+			}
+			sort.Slice(lis, func(i, j int) bool { return lis[i].ordinal < lis[j].ordinal })
+			for _, li := range lis {
+				fmt.Printf("  loop %d: %s\n", li.ordinal, v.fset.Position(li.pos))
+			}
+		}
+		os.Exit(0)
+	}
 }
